@@ -298,6 +298,16 @@ def _worker(args):
     pid, tier, seed, start, count, wall_deadline = args
     faulthandler.dump_traceback_later(600, exit=True)
     try:
+        # a change that makes the code under test allocate without bound should surface as MemoryError inside the case
+        # (an exception escaping from hio, i.e. a violation), not as a worker killed by the kernel
+        import resource
+        soft, hard = resource.getrlimit(resource.RLIMIT_AS)
+        cap = 5 << 29      # 2.5 GB: 16 workers must not add up to the machine
+        if soft == resource.RLIM_INFINITY or soft > cap:
+            resource.setrlimit(resource.RLIMIT_AS, (cap, hard))
+    except Exception:
+        pass
+    try:
         mod = load_check(pid)
         known, _fixed = load_known(pid)
         out = dict(evals=0, nontrivial=set(), events=set(), faults=Counter(), probes=Counter(),
